@@ -249,6 +249,12 @@ func newInstance(c Case) *instance {
 				hopts = append(hopts, op.WithSupportedIDTokenHintSigningAlgorithms(c.Algs...))
 			}
 			av, hv := op.NewAccessTokenVerifier(issuer, ks, aopts...), op.NewIDTokenHintVerifier(issuer, ks, hopts...)
+			switch c.Stale { // (the verifier type has no option for these; an application sets the fields)
+			case "iat":
+				hv.MaxAgeIAT = time.Hour
+			case "auth":
+				hv.MaxAge = time.Hour
+			}
 			accessV = func() *op.AccessTokenVerifier { return av }
 			hintV = func() *op.IDTokenHintVerifier { return hv }
 		} else {
@@ -273,11 +279,20 @@ func newInstance(c Case) *instance {
 					}
 				} else {
 					claims, err := op.VerifyIDTokenHint[*oidc.IDTokenClaims](ctx, tok, hintV())
-					o = outcome{Accepted: err == nil, Err: errStr(err)}
-					if err == nil {
+					// claims + IDTokenHintExpiredError is the documented "expired, but signature and other verifications
+					// succeeded" answer (the authorize and end_session endpoints believe such claims): handed back as well
+					expired := err != nil && errors.As(err, &op.IDTokenHintExpiredError{})
+					o = outcome{Accepted: !isNil(claims) && (err == nil || expired), Err: errStr(err)}
+					switch {
+					case o.Accepted:
 						o.View = viewOfObj(kind, claims)
-					} else if !isNil(claims) {
-						// claims + IDTokenHintExpiredError is a documented combination, but nothing here is expired
+						if expired {
+							o.Note = "handed back with IDTokenHintExpiredError"
+							res.Label("hint:handed-back-as-expired")
+						}
+					case err == nil:
+						res.Fail("C02:nil-claims-without-error:"+kind, "VerifyIDTokenHint returned neither claims nor an error")
+					case !isNil(claims):
 						res.Fail("C02:claims-with-error:"+kind, "claims returned together with error %v", err)
 					}
 				}
@@ -324,7 +339,36 @@ func newInstance(c Case) *instance {
 				o := outcome{Accepted: err == nil, Err: errStr(err)}
 				if err == nil {
 					o.View = map[string]string{"state": ar.State, "nonce": ar.Nonce}
+				} else if ar.State != qState || ar.Nonce != qNonce || ar.ClientID != who {
+					res.Fail("C02:claims-with-error:"+c.Kind, "request object refused (%v) but its claims were copied into the authorization request: state=%q nonce=%q client_id=%q", err, ar.State, ar.Nonce, ar.ClientID)
 				}
+				return one(o)
+			}}
+
+	case kHintEnd:
+		// the end_session endpoint believes the subject of the hint: it ends that user's session
+		st := newStore(c)
+		sut, setKeys := buildProviderFor(st, c, c.Router)
+		ag := vkit.NewAgent(sut)
+		return &instance{
+			setKeys: setKeys,
+			verify: func(_, tok, _ string, _ int, res *vkit.Result) []outcome {
+				before := len(st.Ended)
+				resp := ag.EndSession(url.Values{"id_token_hint": {tok}})
+				if resp.Panic != nil {
+					res.Fail("C02:panic@"+resp.PanicFrame(), "end_session endpoint panicked: %v", resp.Panic)
+					return nil
+				}
+				o := outcome{Note: fmt.Sprintf("status=%d", resp.Status)}
+				if len(st.Ended) == before {
+					o.Err = resp.Describe()
+					if len(o.Err) > 200 {
+						o.Err = o.Err[:200]
+					}
+					return one(o)
+				}
+				o.Accepted = true
+				o.View = map[string]string{"sub": st.Ended[len(st.Ended)-1][0]}
 				return one(o)
 			}}
 
@@ -502,6 +546,21 @@ func validCase(c Case) string {
 		if !knownKey(tk.Key) || !vkit.AlgFitsKey(tk.Alg, vkit.Key(tk.Key)) {
 			return "signing key does not fit algorithm"
 		}
+		if !contains(timeKinds, tk.Time) || (tk.Time != "" && isReqObj(c.Kind)) {
+			return "unknown time claims"
+		}
+		if (tk.Outer != "" || tk.CID != "" || tk.Iss == "absent") && !isReqObj(c.Kind) {
+			return "request-object members on another kind of token"
+		}
+		if !contains([]string{"", "c1", "c2", "ghost"}, tk.Outer) || !contains([]string{"", "absent", "empty", "c1", "c2", "ghost"}, tk.CID) {
+			return "unknown request-object shape"
+		}
+		if tk.Iss == "absent" && tk.Outer == "" {
+			return "request object without requesting client"
+		}
+	}
+	if c.Stale != "" && (c.Kind != kOPHint || (c.Stale != "iat" && c.Stale != "auth")) {
+		return "unknown verifier age limits"
 	}
 	if len(c.Seq) > 8 {
 		return "sequence too long"
@@ -672,7 +731,7 @@ func run(c Case) (res *vkit.Result) {
 			times = 3
 		}
 		kind := cc.Kind
-		outs := inst.verify(kind, b.Token, who(cc), times, res)
+		outs := inst.verify(kind, b.Token, requester(cc), times, res)
 		want := viewOfJSON(kind, b.SignedP)
 		var evil map[string]string
 		if b.EvilP != nil {
@@ -682,6 +741,7 @@ func run(c Case) (res *vkit.Result) {
 			res.Label("prov:call-to-other-verifier")
 		}
 		provLabels(c, cl, calls, i, v, res)
+		dimLabels(cc, v, outs, res)
 		baseOK := len(v.Reject) == len(uniq(append([]string{}, b.Reject...))) // nothing but the manipulations speaks against the token
 		if baseOK && c.Raw == nil {
 			res.Label("base-acceptable")
@@ -733,6 +793,9 @@ func run(c Case) (res *vkit.Result) {
 			case len(v.Grey) == 0:
 				res.Label("seq:" + src + ":must-accept")
 			}
+			if src == "derived-of-accepted:replay" && len(v.Reject) > 0 {
+				res.Label("seq:accepted-token-replayed-after-withdrawal:" + kind) // (rp remote key set: only once its cache must have noticed)
+			}
 			hist = "; history on this instance: " + history(calls[:i+1], accepted[:i])
 			if len(hist) > 400 { // (the driver prints 600 characters of a message; the replay file has everything)
 				hist = hist[:180] + " ... " + hist[len(hist)-215:]
@@ -749,7 +812,7 @@ func run(c Case) (res *vkit.Result) {
 			}
 			switch {
 			case len(v.Reject) > 0 && o.Accepted:
-				res.Fail("C02:sound:"+kind+":"+strings.Join(v.Reject, "+"), "%s%s accepted a token that must be rejected (%v)%s; believed %v%s; token %s", kind, provText(c, cl), v.Reject, callNo, o.View, hist, clipTok(b.Token, hist))
+				res.Fail("C02:sound:"+kind+":"+strings.Join(v.Reject, "+"), "%s%s accepted a token that must be rejected (%v)%s%s; believed %v%s; token %s", kind, provText(c, cl), v.Reject, dimText(cc, o), callNo, o.View, hist, clipTok(b.Token, hist))
 			case len(v.Reject) == 0 && len(v.Grey) == 0 && !o.Accepted:
 				res.Fail("C02:complete:"+kind+":"+v.AcceptClass, "%s%s rejected a genuine token signed with an allowed algorithm by a trusted key (%s)%s: %s%s", kind, provText(c, cl), v.AcceptClass, callNo, o.Err, hist)
 			}
@@ -775,6 +838,9 @@ func run(c Case) (res *vkit.Result) {
 		}
 		if i > 0 {
 			keyParts = append(keyParts, fmt.Sprintf("%s>%d|%v|%s|%s|%s|%v|%s", cl.Mut, cl.From, manipNamesOf(cl.Tok), keySetShape(cl.Keys), keySetShape(cl.Keys2), cl.Tok.Alg, cl.Tok.HasKID, verdictClass(v)))
+			if d := cl.Tok.Time + "/" + cl.Tok.Outer + "/" + cl.Tok.CID; d != "//" {
+				keyParts[len(keyParts)-1] += "|dims:" + d
+			}
 			if kind != c.Kind {
 				keyParts[len(keyParts)-1] += "|" + kind
 			}
@@ -789,6 +855,9 @@ func run(c Case) (res *vkit.Result) {
 	res.NonTrivial = res.NonTrivial || c.Raw != nil || len(calls) > 1
 	v0, _ := infos[0]["model"].(verdict)
 	res.Key = fmt.Sprintf("%s|%s|%v|%s|%s|%v|%s|%s|%v|%s|%v%v", c.Kind, c.Router, manipNames(c), keySetShape(c.Keys), keySetShape(c.Keys2), c.Algs, c.Tok.Alg, c.Tok.Relation, c.Tok.HasKID, verdictClass(v0), c.Warm, c.SkipRemote) + "|" + c.Tok.Sub + fmt.Sprint(c.MultiKS)
+	if d := c.Tok.Time + "/" + c.Stale + "/" + c.Tok.Outer + "/" + c.Tok.CID; d != "///" {
+		res.Key += "|dims:" + d + "/" + c.Tok.Iss
+	}
 	if c.Prov != nil {
 		p := c.Prov
 		res.Key += fmt.Sprintf("|prov:%s|%s|%s|%v|%v|%v|%s", provShape(p), keySetShape(p.AccessKS), keySetShape(p.HintKS), p.AccessAlgs, p.HintAlgs, p.Rev, keySetShape(calls[0].Keys))
@@ -800,6 +869,110 @@ func run(c Case) (res *vkit.Result) {
 		res.Key += "|seq:" + strings.Join(keyParts, ";")
 	}
 	return res
+}
+
+// dimText: the time-claims / request-object shape of the call (for violation messages).
+func dimText(c Case, o outcome) string {
+	s := ""
+	if timeFails(c) {
+		s += " [time claims: " + c.Tok.Time
+		if c.Kind == kOPHint && c.Stale != "" {
+			s += " verifier max age " + c.Stale
+		}
+		if strings.Contains(o.Note, "IDTokenHintExpiredError") {
+			s += "; claims " + o.Note
+		}
+		s += "]"
+	}
+	if isReqObj(c.Kind) && (c.Tok.Outer != "" || c.Tok.CID != "") {
+		cid, has := cidMember(c.Tok, who(c))
+		s += fmt.Sprintf(" [authorization request of client %q; request object iss=%q client_id=%q (present: %v), signed by %s]", requester(c), who(c), cid, has, c.Tok.Key)
+	}
+	return s
+}
+
+// dimLabels: classes of the time-claims and the request-object dimensions.
+func dimLabels(c Case, v verdict, outs []outcome, res *vkit.Result) {
+	if timeFails(c) {
+		grp := "other"
+		if isHint(c.Kind) {
+			grp = "hint"
+		}
+		tm := c.Tok.Time
+		if tm == "" {
+			tm = "stale-" + c.Stale
+		}
+		res.Label("time:"+grp+":"+tm, "time-fails:"+c.Kind)
+		if isHint(c.Kind) {
+			// the class that decides whether unverified claims of an expired hint would be noticed
+			switch {
+			case len(v.Reject) > 0:
+				res.Label("hint:expired:must-reject")
+				if len(v.Reject) == 1 {
+					res.Label("hint:expired:sole-reason:" + v.Reject[0])
+				}
+			case len(v.Grey) == 1: // nothing but the time claims speaks against it
+				res.Label("hint:expired:genuine")
+				for _, o := range outs {
+					if o.Accepted {
+						res.Label("hint:expired:genuine:handed-back")
+					}
+				}
+			}
+		}
+	}
+	if isReqObj(c.Kind) {
+		r, iss := requester(c), who(c)
+		cid, has := cidMember(c.Tok, iss)
+		if iss == r && has && cid == r {
+			return
+		}
+		res.Label("reqobj:names-other-client")
+		switch {
+		case iss == r:
+			res.Label("reqobj:iss=requester")
+		case iss == "c1" || iss == "c2":
+			res.Label("reqobj:iss=other-registered-client")
+		default:
+			res.Label("reqobj:iss=" + map[bool]string{true: "absent", false: "unknown"}[iss == "absent"])
+		}
+		switch {
+		case !has:
+			res.Label("reqobj:client_id=absent")
+		case cid == "":
+			res.Label("reqobj:client_id=empty")
+		case cid == r:
+			res.Label("reqobj:client_id=requester")
+		default:
+			res.Label("reqobj:client_id=other")
+		}
+		if len(c.Tok.Manips) == 0 {
+			// genuinely signed: by whose key?
+			reg := func(who string) bool {
+				var keys []KeyEntry
+				switch who {
+				case "c1":
+					keys = c.Keys
+				case "c2":
+					keys = c.Keys2
+				}
+				for _, e := range keys {
+					if e.Key == c.Tok.Key {
+						return true
+					}
+				}
+				return false
+			}
+			switch {
+			case reg(r):
+				res.Label("reqobj:signed-by-requesters-key")
+			case iss != r && reg(iss):
+				res.Label("reqobj:signed-by-key-of-the-client-iss-names") // believed only by a verifier that lets the object choose its key set
+			default:
+				res.Label("reqobj:signed-by-unregistered-key")
+			}
+		}
+	}
 }
 
 // provText: how the provider is configured for the verifier of the call (for violation messages).
